@@ -1820,6 +1820,7 @@ def search_phase(pid, seed, tier, focus, everything, known, budget_s):
         add_clone_hops(js, random.Random(seed * 15485863 + rounds))
         if rounds <= 2:
             augment_jobs(js, random.Random(seed * 32452843 + rounds), pid, "quick")
+        js = [j for j in js if not getattr(j, "small_scope", False)]   # deterministic: the main pass has run them already
         if not everything:
             js = [j for j in js if job_views(j) & focus]
         elif len(js) > 1500:
